@@ -148,6 +148,8 @@ def cases(tier: str):
                                prog={"name": "main", "params": [["x", NODEFAULT]], "body": [sub("top", [margs2[0]], "tt"), call("inc", [Vv("tt", 0)], "u0")],
                                      "ret": ["tuple", [Vv("u0"), Vv("tt", 1)]], "subs": [top]})
     yield dict(fam="reconf")
+    yield dict(fam="composed_nest")
+    yield from passthrough_cases()
     yield from repeated_cases()
     # C. the same inner DAG twice in one outer DAG; the same function inside and outside
     for sig in SIGS:
@@ -160,6 +162,85 @@ def cases(tier: str):
                 body = [sub("inner", a1, "r1"), sub("inner", a2, "r2"), call("add", [p1, p2], "u0"), call("inc", [P("x")], "u1")]
                 yield dict(fam="C", sig=sig, ret=ret,
                            prog={"name": "main", "params": [["x", NODEFAULT]], "body": body, "ret": ["tuple", [Vv("u0"), Vv("u1"), p2]], "subs": [inner]})
+
+
+def passthrough_cases():
+    """an inner parameter that no inner node reads and that is only handed back in the return value (dict / tuple / list / single)"""
+    for shape in ("dict", "tuple", "list", "single"):
+        for sig in ("ab5", "a1b5"):
+            params = SIGS[sig]
+            body = [call("inc", [P("b")], "w0")]  # only b is consumed; a is a pure pass-through
+            ret = {"dict": ["dict", {"p": Vv("w0"), "q": P("a")}], "tuple": ["tuple", [Vv("w0"), P("a")]], "list": ["list", [P("a"), Vv("w0")]],
+                   "single": ["atom", P("a")]}[shape]
+            inner = {"name": "inner", "params": params, "body": body, "ret": ret, "subs": []}
+            mid = {"name": "mid", "params": [["t", NODEFAULT]], "body": [sub("inner", [P("t"), C(2)], "m")], "ret": ["atom", Vv("m")], "subs": [inner]} \
+                if shape == "single" else None
+            for args in ([P("x")], [C(7)], [Vv("o0")], [P("x"), C(8)], [Vv("o0"), P("x")]):
+                proj = {"dict": Vv("r", "q"), "tuple": Vv("r", 1), "list": Vv("r", 0), "single": Vv("r")}[shape]
+                pre = [call("inc", [P("x")], "o0")]
+                yield dict(fam="P", sig=sig, ret=shape, use="returned+node",
+                           prog={"name": "main", "params": [["x", NODEFAULT]], "body": pre + [sub("inner", args, "r"), call("ident", [proj], "u0")],
+                                 "ret": ["tuple", [proj, Vv("u0")]], "subs": [inner]})
+            if mid is not None:
+                yield dict(fam="P", sig=sig, ret=shape, use="depth2",
+                           prog={"name": "main", "params": [["x", NODEFAULT]], "body": [sub("mid", [P("x")], "r"), call("ident", [Vv("r")], "u0")],
+                                 "ret": ["tuple", [Vv("r"), Vv("u0")]], "subs": [mid]})
+
+
+COMPOSED_NEST_SRC = '''
+from tawazi import xn, dag
+import twzmc.harness as H
+import twzmc.ir as IRL
+
+@xn
+def inc(*a, **k):
+    return H.lib_call("inc", IRL.LIB["inc"], a, k)
+
+@xn
+def add(*a, **k):
+    return H.lib_call("add", IRL.LIB["add"], a, k)
+
+@dag
+def chain(x):
+    v = inc(x)
+{steps}
+    return v
+
+# a DAG derived by compose() (its node table is built from a SET of ids: arbitrary order) ...
+part = chain.compose("part", "inc", "{last}")
+
+# ... called inside other DAGs, one and two levels deep
+@dag
+def outer(y):
+    return inc(part(add(y, 1)))
+
+@dag
+def top(z):
+    return outer(z), part(z)
+'''
+
+
+def composed_nest_case(acc, c):
+    from ..build import exec_source
+    acc.cases += 1
+    nsteps = 9
+    steps = "\n".join("    v = add(v, %d)" % (i + 1) for i in range(nsteps))
+    last = "add<<%d>>" % (nsteps - 1)
+    src = COMPOSED_NEST_SRC.format(steps=steps, last=last)
+    acc.evaluations += 1
+    try:
+        ns = exec_source(src)
+    except Exception as e:  # noqa: BLE001
+        acc.violation(V("build_failed", f"nesting a DAG derived by compose() raised {e!r}", exc=type(e).__name__), c, (), None, src)
+        return
+    tail = sum(range(1, nsteps + 1))
+    for name, arg, want in (("outer", 3, 3 + 1 + tail + 1), ("top", 5, (5 + 1 + tail + 1, 5 + tail))):
+        res = H.run_controlled(lambda: ns[name](arg))
+        acc.evaluations += 1
+        acc.mark_nontrivial(("composed_nest", name))
+        if res.outcome != "return" or res.value != want:
+            acc.violation(V("wrong_value", f"{name}({arg}) with a nested composed DAG returned {res.value!r} ({res.outcome} {res.exc!r}), plain evaluation gives {want!r}"),
+                          c, (), res.trace, src)
 
 
 def repeated_cases():
@@ -238,6 +319,8 @@ def distinct_ids_ok(d) -> bool:
 def run_one(acc, c):
     if c.get("fam") == "reconf":
         return reconf_case(acc, c)
+    if c.get("fam") == "composed_nest":
+        return composed_nest_case(acc, c)
     prog = c["prog"]
     inputs = [(0,), (3,), (-2,)]
     case = {"prog": prog, "fam": c["fam"], "local_subs": c.get("local_subs", False)}
@@ -259,6 +342,9 @@ def replay(v):
     prog = c["prog"]
     if c.get("fam") == "reconf":
         reconf_case(a, c)
+        return a.violations, None
+    if c.get("fam") == "composed_nest":
+        composed_nest_case(a, c)
         return a.violations, None
     if "config" not in c:
         run_program(a, c, prog, [(0,), (3,), (-2,)], ["mc1"], (False,), local_subs=c.get("local_subs", False))
